@@ -91,7 +91,7 @@ def keep(mdir, prop, ident, res):
 
 def main(argv):
     if argv and argv[0] == "--recheck":
-        ids = argv[1:] or sorted(x for x in os.listdir(SEEDED) if os.path.isdir(os.path.join(SEEDED, x)))
+        ids = argv[1:] or sorted(x for x in os.listdir(SEEDED) if os.path.exists(os.path.join(SEEDED, x, "meta.json")))
         for ident in ids:
             d = os.path.join(SEEDED, ident)
             meta = json.load(open(os.path.join(d, "meta.json")))
